@@ -180,6 +180,43 @@ func makeView(ws *WalkScn, blocks []*commonmark.RootBlock) *walkView {
 			}
 			return n.Child(i)
 		}
+	case "grafted":
+		// custom child functions ATTACH children where the parsed tree has none:
+		// selected childless nodes of the host tree (an HTML comment used as an
+		// include marker, a text leaf) get the root blocks of a separately parsed
+		// donor document as virtual children.  Donor nodes are never selected
+		// themselves, so the view is finite.
+		v.root = pickRoot()
+		donor, _ := commonmark.Parse([]byte("graft *x* [l](/u)\n\n- y\n"))
+		host := map[commonmark.Node]bool{}
+		var collect func(n commonmark.Node)
+		collect = func(n commonmark.Node) {
+			host[n] = true
+			for i, c := 0, n.ChildCount(); i < c; i++ {
+				collect(n.Child(i))
+			}
+		}
+		for _, b := range blocks {
+			collect(b.AsNode())
+		}
+		grafts := func(n commonmark.Node) int {
+			if n != zero && host[n] && n.ChildCount() == 0 && mix64(ws.HideSeed^nodeKey(n)^0x6a09e667)%3 == 0 {
+				return 1 + int(mix64(ws.HideSeed^nodeKey(n))%2)
+			}
+			return 0
+		}
+		v.childCount = func(n commonmark.Node) int {
+			if g := grafts(n); g > 0 {
+				return g
+			}
+			return n.ChildCount()
+		}
+		v.child = func(n commonmark.Node, i int) commonmark.Node {
+			if g := grafts(n); g > 0 {
+				return donor[i%len(donor)].AsNode()
+			}
+			return n.Child(i)
+		}
 	case "count-only":
 		// only ChildCount is supplied: selected nodes are presented as leaves;
 		// Child stays the default accessor
@@ -285,6 +322,11 @@ type walkObs struct {
 	Aborts      int
 	NestedWalks int
 	Unwound     bool // a callback left Walk by panicking (injected)
+	// SequelHist: callbacks of a second, complete walk of the same root that
+	// was given the very same *WalkOptions value right after the first walk
+	// ended early (abort or unwinding); SequelRan says whether it was run
+	SequelHist []walkEvent
+	SequelRan  bool
 }
 
 // realWalk drives commonmark.Walk with the same tape.
@@ -320,6 +362,7 @@ func realWalk(v *walkView, ws *WalkScn, blocks []*commonmark.RootBlock, histCap 
 	}
 	var sameOpts *commonmark.WalkOptions
 	depth, nestedCnt := 0, 0
+	sequel := false
 	nested := func(c *commonmark.Cursor, before walkEvent) {
 		if !ws.Reentrant || len(blocks) == 0 || obs.NestedWalks >= 150 {
 			return // at most 150 nested walks per walk: enough to overlap every kind of frame
@@ -356,6 +399,13 @@ func realWalk(v *walkView, ws *WalkScn, blocks []*commonmark.RootBlock, histCap 
 				nestedCnt++
 				return nestedCnt < 64
 			}
+			if sequel {
+				obs.SequelHist = append(obs.SequelHist, walkEvent{false, c.Node(), c.Parent(), c.ParentBlock(), c.Index()})
+				if len(obs.SequelHist) > 300000 {
+					panic(walkOverrun{})
+				}
+				return true
+			}
 			simrt.Yield(sitePre)
 			ev := inspect(c, false)
 			nested(c, ev)
@@ -375,6 +425,13 @@ func realWalk(v *walkView, ws *WalkScn, blocks []*commonmark.RootBlock, histCap 
 			if depth > 0 {
 				nestedCnt++
 				return nestedCnt < 48
+			}
+			if sequel {
+				obs.SequelHist = append(obs.SequelHist, walkEvent{true, c.Node(), c.Parent(), c.ParentBlock(), c.Index()})
+				if len(obs.SequelHist) > 300000 {
+					panic(walkOverrun{})
+				}
+				return true
 			}
 			simrt.Yield(sitePost)
 			ev := inspect(c, true)
@@ -402,6 +459,24 @@ func realWalk(v *walkView, ws *WalkScn, blocks []*commonmark.RootBlock, histCap 
 		}()
 		commonmark.Walk(v.root, opts)
 	}()
+	if (obs.Aborts > 0 || obs.Unwound) && maxCallbacks < 1<<30 {
+		// the caller keeps its options value and walks again, to completion
+		obs.SequelRan = true
+		sequel = true
+		tp.tape, tp.pos = "", 0
+		func() {
+			defer func() {
+				if r := recover(); r != nil {
+					if _, ok := r.(walkOverrun); !ok {
+						panic(r)
+					}
+					obs.SequelHist = append(obs.SequelHist, walkEvent{Index: -99}) // marks an overrun
+				}
+			}()
+			commonmark.Walk(v.root, opts)
+		}()
+		sequel = false
+	}
 	return obs
 }
 
@@ -521,6 +596,16 @@ func checkC18(s *Scenario) (*Failure, *walkObs) {
 		}
 		if obs2.Callbacks != len(want2) {
 			return &Failure{Check: "history", Observed: fmt.Sprintf("walk following an aborted walk: %d callbacks", obs2.Callbacks), Expected: fmt.Sprintf("%d callbacks", len(want2))}, obs
+		}
+		if obs.SequelRan {
+			for i := 0; i < len(want2) && i < len(obs.SequelHist); i++ {
+				if obs.SequelHist[i] != want2[i] {
+					return &Failure{Check: "history", Observed: fmt.Sprintf("a complete walk given the SAME *WalkOptions right after an aborted walk: callback %d differs: %s", i, describeHist(obs.SequelHist, i)), Expected: describeHist(want2, i)}, obs
+				}
+			}
+			if len(obs.SequelHist) != len(want2) {
+				return &Failure{Check: "history", Observed: fmt.Sprintf("a complete walk given the SAME *WalkOptions right after an aborted walk made %d callbacks; tail: %s", len(obs.SequelHist), describeHist(obs.SequelHist, len(obs.SequelHist)-1)), Expected: fmt.Sprintf("%d callbacks", len(want2))}, obs
+			}
 		}
 	}
 	return nil, obs
